@@ -106,18 +106,44 @@ def _short(step) -> str:
     src = recipe["src"]
     if src and src[0] == "raw":
         src = ["raw", f"<{len(src[1]) * 3 // 4} bytes>"] + list(src[2:])
-    return f"{kind} {src}" + (f" {recipe['op']}" if recipe.get("op") else "") + f" path#{pidx}"
+    how = f" path#{pidx}" if not isinstance(pidx, dict) else " via " + " ".join(f"{k}={v}" for k, v in sorted(pidx.items()))
+    return f"{kind} {src}" + (f" {recipe['op']}" if recipe.get("op") else "") + how
 
 
 def _step_key(step) -> str:
     return json.dumps(_step(step), sort_keys=True)
 
 
+def _rf_root() -> str:
+    """Directory of the files for read_file steps: the same absolute path in every process of one run (the path is part of the result's metadata)."""
+    return os.environ.get("VERIF_C15_RF_ROOT") or "/tmp/verif-c15-read-file"
+
+
 def _step_io(step):
+    """(kind, bytes, path) of a step; for a step through another entry point (third element a dict: {"entry": "read_file", "pidx": i, <options>})
+    the 'path' is that dict, completed with the file name to use."""
     kind, recipe, pidx = _step(step)
     data = iso.make_input(recipe)
     ext = corpus.KIND_EXT.get(kind, ".bin") if kind != "zip" else iso.source_ext(recipe["src"])
+    if isinstance(pidx, dict):
+        name = iso.path_for(pidx.get("pidx", 1), ext) or ("in" + ext)
+        return kind, data, dict(pidx, name=name.lstrip("/"))
     return kind, data, iso.path_for(pidx, ext)
+
+
+def _via_read_file(data, opts):
+    """sharepoint2text.read_file on a real file holding ``data`` (the documented file entry point, with its option flags)."""
+    import sharepoint2text
+    d = os.path.join(_rf_root(), hashlib.sha1(data).hexdigest()[:16])
+    fp = os.path.join(d, opts["name"])
+    if not os.path.exists(fp):
+        os.makedirs(os.path.dirname(fp), exist_ok=True)
+        tmp = f"{fp}.{os.getpid()}.{threading.get_ident()}.tmp"
+        with open(tmp, "wb") as f:
+            f.write(data)
+        os.replace(tmp, fp)
+    kw = {k: v for k, v in opts.items() if k not in ("entry", "pidx", "name")}
+    return list(sharepoint2text.read_file(fp, **kw))
 
 
 def _extract_digest(kind, data, path):
@@ -141,6 +167,8 @@ def _extract_digest(kind, data, path):
             out.append([name, s_, g_])
         return [hashlib.sha1(json.dumps(out).encode()).hexdigest()[:16]]
     try:
+        if isinstance(path, dict):
+            return _digest(_via_read_file(data, path))
         return _digest(list(obs.extractor(kind)(io.BytesIO(data), path)))
     except Exception as e:
         return f"raises {type(e).__name__}"
@@ -706,6 +734,9 @@ def part_stress(case):
 def _feature(step) -> str:
     """Mechanism-level name of what a step is: '' for the generic pool ('sequence' / 'mixed-workload'), family + varied context for a context-group member."""
     src = step[1]["src"]
+    if len(step) > 2 and isinstance(step[2], dict):
+        opts = "+".join(k for k in sorted(step[2]) if k not in ("entry", "pidx", "name"))
+        return f"{step[2]['entry']}-{step[0]}" + (f"-with-{opts}" if opts else "")
     if iso.is_iso(src):
         return iso.feature(src, step[0]) + ("" if not step[1].get("op") else "-damaged")
     if src[0] == "raw" and len(src) > 2:
@@ -745,7 +776,7 @@ def part_baseline(case):
     kind, data, path = _step_io(case["step"])
     out = {"part": "baseline", "digest": _extract_digest(kind, data, path), "sha": hashlib.sha1(data).hexdigest()[:16]}
     src = case["step"][1]["src"]
-    if iso.is_iso(src) and src[1] != "drop" and kind != "route" and not case["step"][1].get("op"):
+    if iso.is_iso(src) and src[1] != "drop" and kind != "route" and not case["step"][1].get("op") and not isinstance(path, dict):
         # generator self-check: the isolated result shows what the writer says it wrote (its own tokens, decoded escapes)
         from vlib import obs
         t = iso.truth(src)
@@ -791,6 +822,7 @@ def main(run):
                        "waiting for one of the extractor module's own locks is a logical scheduler state (thread not enabled until release), not a wall-clock guess; "
                        "the wall-clock stall rule only serves blocking the harness does not know about (counter schedules_where_a_thread_stalled_outside_points_and_locks)"]
     rng = run.rng
+    os.environ["VERIF_C15_RF_ROOT"] = f"/tmp/verif-c15-rf-{os.getpid()}"      # inherited by every worker of this run
     sources = corpus.all_sources(n_gen=3, base_seed=run.seed * 1000)
     pdfs = [("pdf", s) for s in sources.get("pdf", []) if s[0] == "gen" or "large_table" not in s[1]]
     others = [(k, s) for k in ("docx", "xlsx", "zip", "html", "odt", "rtf", "eml", "mbox", "msg", "mhtml") for s in sources.get(k, [])[:2]]
@@ -876,6 +908,20 @@ def main(run):
     for i in range(run.n(20, 300)):
         steps = [rng.choice(pool_steps) if rng.random() < 0.8 else rng.choice(iso_steps + damaged_iso) for _ in range(rng.randint(6, 20))]
         hist_cases.append({"part": "history", "steps": steps, "id": i})
+    # the same documents through the file entry point with its option flags (a per-call option must stay per call): archives and a few documents,
+    # size limits below / above the file and below / above its members, and "no limit"
+    rf_docs = ([("zip", ["iso", "zip-mime", "zipA"]), ("zip", ["iso", "tar-mime", "tarB"]), ("zip", ["iso", "zip", "A"]), ("zip", ["iso", "zip", "B"])]
+               + [(k, s) for k, s in (sources.get("zip") and [("zip", s) for s in sources["zip"] if s[0] == "arch"][:3] or [])]
+               + [("docx", ["iso", "docx", "hfA"]), ("xlsx", ["iso", "xlsx", "vals-mixed"]), ("txt", ["iso", "plain", "txt"]), ("eml", ["iso", "eml-sized", "file-long"]), ("pdf", pdfs[0][1])])
+    limits = [None, 0, 1, 1000, 4096, 60000, 3_000_000, 50_000_000]
+    rf_steps = []
+    for k, s_ in rf_docs:
+        for lim in (limits if not run.quick else [None] + rng.sample(limits[1:], 3)):
+            rf_steps.append([k, {"src": s_, "op": None}, dict({"entry": "read_file", "pidx": 1 + zlib.crc32(json.dumps(s_).encode()) % (len(iso.PATHS) - 1)}, **({} if lim is None else {"max_file_size": lim}))])
+    for i in range(run.n(6, 40)):
+        direct = [[k, {"src": s_, "op": None}, 1] for k, s_ in rf_docs]
+        steps = [rng.choice(rf_steps) if rng.random() < 0.6 else rng.choice(direct) for _ in range(rng.randint(6, 14))]
+        hist_cases.append({"part": "history", "steps": steps, "id": f"rf{i}", "group": "entry-points:option-flags/process-configuration"})
     for gi, g in enumerate(groups):
         for rep in range(run.n(1, 6)):
             ms = list(g["members"])
@@ -1014,6 +1060,8 @@ def main(run):
     if unstable_inputs:
         run.inconclusive(f"{unstable_inputs} inputs were not bit-identical between their isolated baseline process and the history / stress process "
                          "(a generator that is not deterministic, or one edited while the check was running)")
+    import shutil
+    shutil.rmtree(_rf_root(), ignore_errors=True)
     run.count("context_groups", len(groups))
     run.count("context_group_history_steps", group_steps)
     run.count("context_documents_showing_their_ground_truth_in_isolation", truth_ok)
